@@ -10,6 +10,6 @@ case "$p" in
 esac
 rc=0
 for id in "$@"; do
-  (cd /verif && ./check "$id" ${TIER:+--tier $TIER} 2>&1 | grep -E "^(C[0-9]+ tier|VIOLATION|KNOWN|INCONCLUSIVE|  violation)" | cut -c1-400)
+  (cd /verif && ./check "$id" ${TIER:+--tier $TIER} 2>&1 | grep -E "^(C[0-9]+ tier|VIOLATION|INCONCLUSIVE|  violation)" | cut -c1-400)
 done
 git -C /repo checkout -- .
